@@ -64,3 +64,29 @@ def is_rnd(e):
         if l.k == "bin" and l.op == "+" and l.a[0].k == "float" and l.a[0].val == MAGIC:
             return l.a[1]
     return None
+
+
+def unsigned_differences(func):
+    """assignments / initialisations that store a difference (a - b after stripping implicit casts) into a variable of unsigned
+    integer type: C evaluates the difference in int, the conversion wraps a negative result to a huge value
+    (-fsanitize=implicit-integer-sign-change).  -> list of (line, type, target text, rhs text)"""
+    from .bounds import is_unsigned_ty
+    out = []
+    for st in cfront.swalk(func.body):
+        cands = []
+        if st.k == "decl" and st.init is not None:
+            cands.append((st.var.ty, st.var.name, st.init, st.line))
+        for e in cfront.stmt_exprs(st):
+            for x in cfront.ewalk(e):
+                if x.k == "asg" and x.op in ("=", "-="):
+                    cands.append((x.a[0].ty, cfront.estr(x.a[0]), x.a[1] if x.op == "=" else x, x.line or st.line))
+        for ty, name, rhs, line in cands:
+            if not ty or "*" in ty or "[" in ty or not is_unsigned_ty(ty):
+                continue
+            r = rhs
+            while r.k == "cast":
+                r = r.a[0]
+            if (r.k == "bin" and r.op == "-") or (r.k == "asg" and r.op == "-="):
+                # a literal minuend larger than any subtrahend of the narrower type is fine: 65535 - x for uint16 x
+                out.append((line, ty, name, cfront.estr(rhs)))
+    return out
